@@ -54,32 +54,18 @@ Definition hex_val (c : N) : option N :=
   else None.
 Fixpoint pct_decode (b : bytes) : bytes :=
   match b with
-  | 37 :: r =>
-      match r with
-      | h :: l :: r' =>
-          match hex_val h, hex_val l with
-          | Some x, Some y => (16 * x + y) :: pct_decode r'
-          | _, _ => 37 :: pct_decode_tail r
-          end
-      | _ => 37 :: pct_decode_tail r
-      end
-  | c :: r => c :: pct_decode r
   | [] => []
-  end
-with pct_decode_tail (b : bytes) : bytes :=
-  (* continue after a literal '%' : same function, separate name to keep the recursion structural *)
-  match b with
-  | 37 :: r =>
-      match r with
-      | h :: l :: r' =>
-          match hex_val h, hex_val l with
-          | Some x, Some y => (16 * x + y) :: pct_decode r'
-          | _, _ => 37 :: pct_decode_tail r
-          end
-      | _ => 37 :: pct_decode_tail r
-      end
-  | c :: r => c :: pct_decode_tail r
-  | [] => []
+  | c :: r =>
+      if c =? 37 then
+        match r with
+        | h :: l :: r' =>
+            match hex_val h, hex_val l with
+            | Some x, Some y => (16 * x + y) :: pct_decode r'
+            | _, _ => 37 :: pct_decode r
+            end
+        | _ => 37 :: pct_decode r
+        end
+      else c :: pct_decode r
   end.
 
 Definition mem_version (v : bytes) (vs : list bytes) : bool := existsb (beqb v) vs.
